@@ -192,9 +192,8 @@ class GenericElongationGroove(GrooveBase, ReprMixin):
     def _ground_contour_line(self, z):
         return np.ones_like(z) * (self.depth - self.indent)
 
-    @staticmethod
-    def _face_contour_line(z):
-        return np.zeros_like(z)
+    def _face_contour_line(self, z):
+        return np.tan(self.pad_angle) * (z - self.z2)
 
     def _enumerate_contour_points(self):
         yield self.z0, self.y0
